@@ -218,7 +218,9 @@ class InlineTemp(ast.NodeTransformer):
                     x = a.targets[0].id
                     uses_b = [n for n in ast.walk(b) if isinstance(n, ast.Name) and n.id == x and isinstance(n.ctx, ast.Load)]
                     written = {n.id for t in (b.targets if isinstance(b, ast.Assign) else []) for n in ast.walk(t) if isinstance(n, ast.Name)}
-                    if len(stores.get(x, [])) == 1 and len(loads.get(x, [])) == 1 and len(uses_b) == 1 and not (written & {n.id for n in ast.walk(a.value) if isinstance(n, ast.Name)}):
+                    lazy = any(isinstance(t, (ast.ListComp, ast.SetComp, ast.DictComp, ast.GeneratorExp, ast.IfExp, ast.BoolOp)) and any(m is uu for uu in uses_b for m in ast.walk(t))
+                               for t in ast.walk(b))      # a conditionally evaluated position would change when a failing lookup raises
+                    if not lazy and len(stores.get(x, [])) == 1 and len(loads.get(x, [])) == 1 and len(uses_b) == 1 and not (written & {n.id for n in ast.walk(a.value) if isinstance(n, ast.Name)}):
                         class Sub(ast.NodeTransformer):
                             def visit_Name(s, n):
                                 return a.value if (n.id == x and isinstance(n.ctx, ast.Load)) else n
